@@ -70,6 +70,14 @@ func selftestRound5(check func(name string, ok bool, format string, args ...any)
 			nbIn = append(nbIn, fd.Name.Name)
 		}
 	}
+	_, ls := lastElementSkipped(pk)
+	var lsIn []string
+	for _, fs := range ls {
+		if fd := enclosingDecl(mp.File, fs); fd != nil {
+			lsIn = append(lsIn, fd.Name.Name)
+		}
+	}
+	check("lastElementSkipped", len(lsIn) == 1 && lsIn[0] == "stopsShort", "loops stopping short of the end in %v (want stopsShort; not adjacentPairs, tailOnItsOwn, wholeSlice)", lsIn)
 	check("nilElementBreaks", len(nbIn) == 2 && nbIn[0] == "breaksOnNil" && nbIn[1] == "returnsOnMissingMember", "loops left on an absent element in %v (want breaksOnNil, returnsOnMissingMember; not firstMatch, skipsNil)", nbIn)
 }
 
@@ -321,6 +329,38 @@ func trimsAffix(p, a string) (string, string) {
 }
 func trimsSets(s string) (string, string, string) {
 	return strings.Trim(s, " \t\r\n"), strings.TrimLeft(s, "./"), strings.TrimRight(s, "0123456789")
+}
+
+// ---- LAST-ELEMENT-SKIPPED (syntax)
+func stopsShort(lines []string) int {
+	n := 0
+	for i := 1; i < len(lines)-1; i++ {
+		n += len(lines[i])
+	}
+	return n
+}
+func adjacentPairs(lines []string) int {
+	n := 0
+	for i := 0; i < len(lines)-1; i++ {
+		if lines[i] == lines[i+1] {
+			n++
+		}
+	}
+	return n
+}
+func tailOnItsOwn(lines []string) int {
+	n := 0
+	for i := 0; i < len(lines)-1; i++ {
+		n += len(lines[i])
+	}
+	return n + 2*len(lines[len(lines)-1])
+}
+func wholeSlice(lines []string) int {
+	n := 0
+	for i := 0; i <= len(lines)-1; i++ {
+		n += len(lines[i])
+	}
+	return n
 }
 
 // ---- NIL-ELEMENT-BREAK (syntax)
